@@ -79,6 +79,22 @@ CHECKS = {
         "note": NOTE_COMMON + " kirin's CallGraphPass/Method.similar perform the cloning and are exercised, not verified; the model clones every method (superset of the call graph); spec immutability is checked on the Python side only.",
         "technique": "Coq proofs over a store/call-graph model (frame, reachability invariant) + history replay with full observation after each step",
     },
+    "C08": {
+        "text": "'Physically executable' is defined by an AOD simulator (Model.Aod: trap sites, occupancy, held atoms, tone positions; refuses a "
+                "spot lit off a trap site, a release onto a non-site or an occupied site, a jump of tones while atoms are held, a waypoint of the wrong "
+                "dimensions and a switch before any waypoint). PROVED about it for ALL site sets, occupancies and path lists: every accepted run "
+                "conserves the multiset of atoms (none lost, none duplicated); every accepted switch-off releases onto vacant trap sites; every "
+                "accepted switch-on lights spots only on trap sites; a run whose first waypoint differs from the tones of held atoms is refused, and so "
+                "is a wrong-dimension waypoint. DECIDED BY ENUMERATION (not by a theorem about the kernels): every library move - single-zone CZ "
+                "(single_col_zone and stdlib.moves), two_col_zone.rearrange, move_by_waypoints, gemini.logical vertical_shift and gr_zero_to_one - is "
+                "run on the layout its module builds for all layout sizes/spacings and all index lists within the stated bounds (plus unsorted, "
+                "duplicate, out-of-range, negative, empty lists); each accepted call's played paths go through the simulator with the compatible "
+                "occupancy; valid input must be accepted, executable and end where the docstring says, invalid input must be rejected or still be "
+                "executable. The Gallina simulator is run by vm_compute on the same paths and must print the same verdict and final occupancy as the "
+                "Python simulator used for the enumeration.",
+        "note": NOTE_COMMON + " The library kernels themselves are executed (kirin interpreter), not modelled in Coq: the all-inputs claim for them is exhaustive only within the enumerated bounds. The simulator is this development's definition of executability (no such oracle exists in the repo).",
+        "technique": "Coq theorems over an AOD simulator model (conservation/acceptance invariants by induction over paths) + exhaustive bounded enumeration of library calls + vm_compute correspondence of the two simulators",
+    },
     "C09": {
         "text": "Theorems about a model of has_quantum_runtime over an abstraction of the compiled IR: if it answers False then NO execution - any "
                 "branch, any trip count, any dynamically resolved callee, call depth bounded exactly like the interpreters' max_depth - performs a "
